@@ -453,6 +453,15 @@ pub fn gen(prop: &str, rng: &mut Rng, quick: bool, st: &mut Stats) -> Option<Vec
                 c.push(format!("chk_torn {mode} {ops}"));
                 st.bump("torn_with_leaf_spill");
             }
+            // headers that contain line feeds, carriage returns and NULs in their last 30 bytes (zoom levels of 10 and
+            // 13, coordinates whose stored bytes are 0x0a / 0x0d): however a header is buffered, it reaches the stream whole
+            for (i, (z, deg)) in [(10u8, 16.843_009f64), (13, 21.895_245_3), (10, -16.843_009), (0, 0.000_001), (10, 0.0)].iter().enumerate() {
+                let mode = if i % 2 == 0 { "sync" } else { "async" };
+                let d = f64_tok(*deg);
+                let ops = format!("c:none;h:1:1:{z:x}:{z:x}:{z:x}:{d}:{d}:{d}:{d}:{d}:{d};a:3:0102;a:9:{}", hex_bytes(&rng.bytes(30)));
+                c.push(format!("chk_torn {mode} {ops}"));
+                st.bump("torn_with_line_feeds_in_the_header");
+            }
             // tile data of a few KiB to a few hundred KiB (whole archives around the sizes of common copy buffers), and
             // contents with long runs of zeros - at the start, in the middle, at the very end of the data section
             for (i, sizes) in [vec![10_000usize], vec![8_192], vec![16_384], vec![16_385, 3], vec![5_000, 7_000], vec![4_096, 4_096, 4_097], vec![70_000, 100], vec![300_000]].iter().enumerate() {
